@@ -471,7 +471,9 @@ class DataType(object):
         )
 
     def _generate_schema_sequence(self):
-        return ElementMaker().data(type='unsignedLong')
+        e = ElementMaker()
+        # Assure that values are not zero padded and no plus or minus sign is present
+        return e.data(e.param(r'([1-9][0-9]*)|0', name='pattern'), type='unsignedLong')
 
     def _generate_schema_number(self):
         e = ElementMaker()
